@@ -442,3 +442,6 @@ package parse
 //@   ensures result0 == node_pfx_ns(self, prefix) && result1 == node_pfx_err(self, prefix)
 //@ func (Node).Path
 //@   ensures result == node_path(self)
+//@ func (Node).LookupGrouping
+//@   params s
+//@ func (HasArgument).ArgIdRef
